@@ -49,6 +49,12 @@ TRUSTED = [
 ]
 ASSUMPTIONS = [
     "processes long enough for nucleation and solidification to complete (a failing run is C13's subject)",
+    "the reference row for repetition i is the code's own single run `_run_xD(seed=i)` on a fresh object: this check "
+    "ties the STRUCTURE (row i = single run i, modes, histories); the VALUES of a single run are tied to the Lean "
+    "models by C08/C13 (0D/1D/2D loops), not here",
+    "the calls on the global generator are used to check WHICH stream a draw comes from (kinetic seed 2024, then the "
+    "repetition number) - the property's anchor; their exact form/number and the pool's batching are diagnostics only; "
+    "the pool size is verified to follow the patched cpu_count (otherwise exit 2, broken observation)",
     "Nrep >= 1; how in {sequential, async} (other strings silently do nothing - modelled, not part of the property)",
 ]
 RULE = ("two 1D vacuum-induced-surface-freezing histories on a tall vial (run twice / raise Nrep on the used object); "
@@ -145,11 +151,32 @@ def _private_config(case):
     return str(p)
 
 
-def _mk(case, nrep, path=None):
+def _programme(case, k=0):
+    """programme number k of the case as a complete argument dict of OperatingConditions (0 = as constructed)"""
+    oc = dict(PROGRAMS[case["prog"]][0])
+    oc["cooling"] = dict(oc["cooling"])
+    if k:
+        e = case["edits"][k]
+        oc["cooling"].update(e.get("cooling", {}))
+        for key in ("t_tot", "holding"):
+            if key in e:
+                oc[key] = e[key]
+    return oc
+
+
+def _edit_in_place(opcond, oc):
+    """edit the ATTACHED OperatingConditions object (same identity) to programme `oc`"""
+    for key, val in oc["cooling"].items():
+        opcond.cooling[key] = val
+    opcond.holding = oc.get("holding")
+    opcond.t_tot = oc["t_tot"]
+
+
+def _mk(case, nrep, path=None, prog=0):
     from ethz_snow.snowing import Snowing
     from ethz_snow.operatingConditions import OperatingConditions
 
-    oc, s0 = PROGRAMS[case["prog"]]
+    oc, s0 = _programme(case, prog), PROGRAMS[case["prog"]][1]
     S = Snowing(k={"int": 0, "ext": 0, "s0": s0, "s_sigma_rel": 0}, opcond=OperatingConditions(**oc),
                 Nrep=nrep, configPath=path or _config(case["dim"], case.get("cfg")))
     # constants adjusted directly on the object after construction belong to the object
@@ -199,8 +226,12 @@ def _worker_tasks():
     os.remove(path)
     groups = []
     for evs in per.values():
-        for i in range(0, len(evs), 4):
-            groups.append(evs[i:i + 4])
+        cur = None
+        for e in evs:
+            if e == ["seed", 2024] or cur is None:      # every task begins by seeding the kinetic stream
+                cur = []
+                groups.append(cur)
+            cur.append(e)
     return sorted(groups, key=json.dumps)
 
 
@@ -209,8 +240,15 @@ def run_impl(case):
     _PID[0] = os.getpid()
     import ethz_snow.snowing as sn
 
-    real_cpu = sn.mp.cpu_count
+    real_cpu, real_pool = sn.mp.cpu_count, sn.mp.Pool
     sn.mp.cpu_count = lambda: case["cpu"]
+    pool_sizes = []
+
+    def pool(*a, **kw):
+        pool_sizes.append(a[0] if a else kw.get("processes"))
+        return real_pool(*a, **kw)
+
+    sn.mp.Pool = pool
     try:
         nrep = case["nrep"]
         nmax = max([nrep] + [op[1] for op in case["ops"] if op[0] == "setNrep"])
@@ -220,6 +258,12 @@ def run_impl(case):
             mark = len(EVENTS)
             ref.append(_single(_mk(case, 1), case, i))
             ref_evs.append(EVENTS[mark:])
+        # ... and for every programme the attached operating conditions are edited to (fresh objects, fresh opcond)
+        refs = {"0": ref}
+        for op in case["ops"]:
+            if op[0] == "editOp" and str(op[1]) not in refs:
+                refs[str(op[1])] = [_single(_mk(case, 1, prog=op[1]), case, i) for i in range(nmax)]
+        cur = 0
         # arbitrary state of the global generator before the object is used.  The seed is taken far outside the
         # range of repetition seeds: with gstate = Nrep-1 and one draw the initial state would be IDENTICAL to the
         # state a sequential run leaves behind, and "unchanged" could not be told from "seeded Nrep-1, one draw"
@@ -239,6 +283,10 @@ def run_impl(case):
             if op[0] == "setNrep":
                 S.Nrep = op[1]
                 out.append({})
+            elif op[0] == "editOp":
+                cur = op[1]
+                _edit_in_place(S.opcond, _programme(case, cur))
+                out.append({})
             elif op[0] == "run":
                 try:
                     d = core.VERIF / ".cache" / "c14"
@@ -254,10 +302,11 @@ def run_impl(case):
                 try:
                     df = S.results
                     out.append({"index": [int(i) for i in df.index], "columns": [str(c) for c in df.columns],
-                                "rows": [[_bits(x) for x in r] for r in df.to_numpy().tolist()]})
+                                "rows": [[_bits(x) for x in r] for r in df.to_numpy().tolist()], "prog": cur})
                 except Exception as e:
                     out.append({"raise": core.exc_class(e)})
-        obs = {"raise": None, "out": out, "ref": ref, "ref_evs": ref_evs, "world": _world(w0, nmax)}
+        obs = {"raise": None, "out": out, "ref": ref, "refs": refs, "used_prog": cur, "ref_evs": ref_evs,
+               "world": _world(w0, nmax), "pool_sizes": pool_sizes}
         # the single run on the USED object, global generator perturbed: must equal the reference
         np.random.seed(4242)
         obs["used"] = [_single(S, case, i) for i in range(min(nmax, 2 if case["dim"] == "homogeneous" else 1))]
@@ -269,7 +318,12 @@ def run_impl(case):
 
         return {"raise": core.exc_class(e), "tb": traceback.format_exc()[-800:]}
     finally:
-        sn.mp.cpu_count = real_cpu
+        sn.mp.cpu_count, sn.mp.Pool = real_cpu, real_pool
+        if any(n != case["cpu"] for n in pool_sizes):
+            # not a verdict about the code: the worker count is no longer steered by the patched mp.cpu_count, so
+            # this case does not vary the pool size as it claims (infrastructure error, exit 2)
+            raise RuntimeError(f"broken observation: pools of {pool_sizes} workers although mp.cpu_count was patched to "
+                               f"{case['cpu']}; adapt the harness to how the code chooses its pool size")
 
 
 # ---------------------------------------------------------------------------
@@ -277,6 +331,8 @@ def _model_ops(drv, case):
     ops = []
     nrep = case["nrep"]
     for op in case["ops"]:
+        if op[0] == "editOp":
+            continue          # the programme is configuration: the model's `sim` of the following runs
         if op[0] == "setNrep":
             nrep = op[1]
         if op[0] == "run" and op[1] == "async":
@@ -311,26 +367,27 @@ def compare(case, impl, model):
     if impl.get("raise"):
         dis.append(f"implementation raised outside run/results: {impl['raise']} {impl.get('tb', '')[-300:]}")
         return dis
-    for i, (op, a, b) in enumerate(zip(case["ops"], impl["out"], model["out"])):
+    mout = iter(model["out"])
+    for i, (op, a) in enumerate(zip(case["ops"], impl["out"])):
+        if op[0] == "editOp":
+            continue
+        b = next(mout)
         if op[0] == "setNrep":
             continue
         if op[0] == "run":
             if "raise" in a:
                 dis.append(f"op {i} {op}: implementation raised {a['raise']}")
-            elif a["evs"] != b["evs"]:
-                dis.append(f"op {i} {op}: global-generator calls impl {a['evs'][:12]} vs model {b['evs'][:12]}")
-            else:
-                mg = sorted((l[j:j + 4] for l in b.get("worker_evs", []) for j in range(0, len(l), 4)), key=json.dumps)
-                if a["worker_tasks"] != mg:
-                    dis.append(f"op {i} {op}: generator calls in the pool workers, per task: impl {a['worker_tasks'][:4]} "
-                               f"vs model {mg[:4]}")
+            elif _streams(a["evs"]) != _streams(b["evs"]):
+                # the exact call pattern is a diagnostic, not part of the property (results are compared below)
+                dis.append(f"TIE: [diagnostic, not a verdict] op {i} {op}: streams used in this process: impl "
+                           f"{_streams(a['evs'])[:8]} vs model {_streams(b['evs'])[:8]}")
         else:
             if ("raise" in a) != ("raise" in b) or ("raise" in a and a["raise"] != b["raise"]):
                 dis.append(f"op {i} results: impl {a.get('raise', 'table')} vs model {b.get('raise', 'table')}")
                 continue
             if "raise" in a:
                 continue
-            idx, vals = _interp(b["rows"], impl["ref"])
+            idx, vals = _interp(b["rows"], impl["refs"][str(a.get("prog", 0))])
             if a["index"] != idx:
                 dis.append(f"op {i} results: index impl {a['index']} vs model {idx}")
             elif a["rows"] != vals:
@@ -339,8 +396,25 @@ def compare(case, impl, model):
             if a["columns"] != KEYS[case["dim"]]:
                 dis.append(f"op {i} results: columns {a['columns']}")
     if impl["world"] != model["world"]:
-        dis.append(f"global generator afterwards: impl {impl['world']} vs model {model['world']}")
+        dis.append(f"TIE: [diagnostic, not a verdict] global generator afterwards: impl {impl['world']} vs model {model['world']}")
     return dis
+
+
+def _streams(evs):
+    """the seeds given to the global generator, each with the number of draws taken before the next re-seeding:
+    what matters is WHICH stream a draw comes from, not the form or number of the calls"""
+    out = []
+    for e in evs:
+        if e[0] == "seed":
+            out.append([e[1], 0])
+        elif out:
+            out[-1][1] += 1
+    return out
+
+
+def _seeded_ok(evs, i):
+    st = _streams(evs)
+    return [x[0] for x in st] == [2024, i] and all(x[1] >= 1 for x in st)
 
 
 def predicates(case, impl):
@@ -354,17 +428,19 @@ def predicates(case, impl):
     last_how = None
     tables = []
     for i, (op, a) in enumerate(zip(case["ops"], impl["out"])):
-        if op[0] == "setNrep":
-            nrep = op[1]
+        if op[0] == "setNrep" or op[0] == "editOp":
+            if op[0] == "setNrep":
+                nrep = op[1]
             last_how = None          # the table is only defined again after the next run
             tables = []
             continue
         if op[0] == "run":
             last_how = op[1]
             if "raise" not in a and op[1] == "async" and nrep > 1:
-                want = sorted(([["seed", 2024], ["draw"], ["seed", j], ["draw"]] for j in range(nrep)), key=json.dumps)
-                if a["worker_tasks"] != want:
-                    odd = [g for g in a["worker_tasks"] if g not in want][:2]
+                okall = all(any(_seeded_ok(g, j) for g in a["worker_tasks"]) for j in range(nrep)) and \
+                    len(a["worker_tasks"]) == nrep
+                if not okall:
+                    odd = [g for g in a["worker_tasks"] if not any(_seeded_ok(g, j) for j in range(nrep))][:2]
                     out.append(Failure(clause="rep_is_seeded_run", key="seeding|Snowing.run|async",
                                        detail=f"parallel run of Nrep={nrep}: the tasks do not seed the generator with "
                                               f"2024 and with their repetition number i (an int): {odd}"))
@@ -374,9 +450,13 @@ def predicates(case, impl):
             continue
         if last_how is None or last_how not in ("sequential", "async"):
             continue
-        hist = [(o[1] if o[0] == "run" else f"Nrep={o[1]}") for o in case["ops"][:i] if o[0] in ("run", "setNrep")]
+        hist = [(o[1] if o[0] == "run" else "edit-opcond-in-place" if o[0] == "editOp" else f"Nrep={o[1]}")
+                for o in case["ops"][:i] if o[0] in ("run", "setNrep", "editOp")]
         resized = any(o[0] == "setNrep" for o in case["ops"][:i])
         cls = "first-run" if len(hist) == 1 else ("after-resize" if resized else "after-" + "-".join(hist[:-1]))
+        ref = impl["refs"][str(a.get("prog", 0))] if "raise" not in a else ref
+        if any(o[0] == "editOp" for o in case["ops"][:i]):
+            cls = "after-in-place-edit"
         if "raise" in a:
             out.append(Failure(
                 clause="rep_is_seeded_run", key=f"rep_is_seeded_run|Snowing.results|{last_how}|raises:{a['raise']}|{cls}",
@@ -396,11 +476,12 @@ def predicates(case, impl):
             out.append(Failure(clause=clause, key=f"{clause}|Snowing.results|{h1[-1]}-{h2[-1]}",
                                detail=f"tables after {h1} and after {h2} differ"))
     for i, ev in enumerate(impl["ref_evs"]):
-        if ev != [["seed", 2024], ["draw"], ["seed", i], ["draw"]]:
+        if not _seeded_ok(ev, i):
             out.append(Failure(clause="rep_is_seeded_run", key="seeding|Snowing._run_xD|",
                                detail=f"_run_xD(seed={i}) uses the global generator as {ev}; expected kinetic draw from "
                                       f"seed 2024 and F_rand as the first draw after np.random.seed({i})"))
             break
+    ref = impl["refs"][str(impl.get("used_prog", 0))]
     if impl["used"] != ref[:len(impl["used"])]:
         out.append(Failure(clause="rep_is_seeded_run", key="seeded_run_history_dependent|Snowing._run_xD|",
                            detail="_run_xD(seed=i) on the used object / with another global-generator state differs "
@@ -409,7 +490,8 @@ def predicates(case, impl):
 
 
 def classify(case, impl):
-    hows = "+".join((o[1] if o[0] == "run" else f"Nrep={o[1]}") for o in case["ops"] if o[0] in ("run", "setNrep"))
+    hows = "+".join((o[1] if o[0] == "run" else "edit" if o[0] == "editOp" else f"Nrep={o[1]}")
+                    for o in case["ops"] if o[0] in ("run", "setNrep", "editOp"))
     if case.get("tamper"):
         hows += " [config file rewritten / const adjusted after construction]"
     return [f"dim={case['dim']}" + (f"/{case['cfg']}" if case.get("cfg") else ""), f"nrep={case['nrep']}", f"cpu={case['cpu']}", f"prog={case['prog']}",
@@ -461,6 +543,17 @@ def cases(rng, tier):
                 yield dict(dim="homogeneous", nrep=n1, cpu=rng.choice([1, 2, 16]), prog=rng.choice(progs),
                            ops=[["run", h1], R, ["setNrep", n2], ["run", h2], R], gstate=rng.randrange(1000),
                            gdraws=rng.randrange(1, 5))
+    # the attached OperatingConditions object is edited IN PLACE between runs: later single runs, sequential and
+    # parallel studies must all use the current programme
+    EDITS = [{}, {"cooling": {"rate": 4 / 60}}, {"holding": [dict(duration=200, temp=-8)]},
+             {"t_tot": 1800, "cooling": {"rate": 5 / 60, "end": -50}}]
+    for nrep, h in ((1, ["async", "async"]), (3, ["sequential", "sequential"]), (3, ["sequential", "async"]),
+                    (3, ["async", "sequential"]), (2, ["async", "async"]), (3, ["sequential", "sequential", "async"])):
+        ops = [["run", h[0]], R]
+        for j, how in enumerate(h[1:]):
+            ops += [["editOp", rng.choice([1, 2, 3]) if j == 0 else 0], ["run", how], R]
+        yield dict(dim="homogeneous", nrep=nrep, cpu=rng.choice([1, 2, 16]), prog="C", ops=ops, edits=EDITS,
+                   gstate=rng.randrange(1000), gdraws=rng.randrange(1, 5))
     # the configuration file is rewritten / constants are adjusted AFTER construction: sequential and parallel rows
     # must both be the single runs on the object's OWN constants
     for tamper in ({"file": "kinetics:\n  b: 31.0\n"}, {"const": {"b": 30.5}},
